@@ -64,7 +64,17 @@ pub struct Ev {
 /// operation announced by this step (so the state seen is exactly the state the operation
 /// will act on).
 pub trait Observer: Send {
-    fn before_op(&mut self, step_no: u64, tid: usize, op: usize, site: Site, key: u64);
+    /// `guard_held`: the thread holds a map guard (shard lock); the observer must then not
+    /// touch the map, only lock-free state.
+    fn before_op(
+        &mut self,
+        step_no: u64,
+        tid: usize,
+        op: usize,
+        site: Site,
+        key: u64,
+        guard_held: bool,
+    );
 }
 
 pub struct Inner {
@@ -399,6 +409,7 @@ impl Sched {
         if guard_held {
             // never descheduled while holding a shard lock; the step is still recorded
             let op = g.cur_op[tid];
+            let step_no = g.trace.len() as u64;
             g.trace.push(Ev {
                 kind: EvKind::Step,
                 tid: tid as u8,
@@ -407,6 +418,11 @@ impl Sched {
                 key,
                 outcome: 2,
             });
+            // a real reader can load the aggregates while this thread holds a shard lock
+            if let Some(mut ob) = g.observer.take() {
+                ob.before_op(step_no, tid, op, site, key, true);
+                g.observer = Some(ob);
+            }
             return;
         }
         // decide who runs; if it is not me, park here
@@ -436,7 +452,7 @@ impl Sched {
             outcome: 2,
         });
         if let Some(mut ob) = g.observer.take() {
-            ob.before_op(step_no, tid, op, site, key);
+            ob.before_op(step_no, tid, op, site, key, false);
             g.observer = Some(ob);
         }
     }
